@@ -75,6 +75,8 @@ PARTIAL_SCOPE = ["Document.find/find_backwards with in_current_line=True or coun
                  "selection kept/dropped by document_for_search, search-field history, multiple BufferControls sharing "
                  "one search field, emacs read-only n/N bindings, vi * and # are not modelled"]
 TECHNIQUE = "lean-proof+correspondence"
+ANCHORS = ["src/prompt_toolkit/buffer.py", "src/prompt_toolkit/document.py", "src/prompt_toolkit/search.py",
+           "src/prompt_toolkit/key_binding/bindings/search.py", "src/prompt_toolkit/layout/controls.py"]
 
 F, B = "F", "B"
 
